@@ -475,6 +475,10 @@ def run_special(tier, r):
         ("optional-select", C.Struct("o" / C.Optional(C.Const(b"\x01")), "s" / C.Select(C.Const(b"\x02"), C.Byte), "t" / C.Terminated), [b"\x01\x02", b"\x02", b"\x05", b"\x01\x05\x00"], []),
         ("aligned-expr", C.Struct("m" / C.Byte, "v" / C.Aligned(this.m + 2, C.Int16ub), "t" / C.Byte), [b"\x00\x01\x02\x09", b"\x02\x01\x02\x00\x00\x09"], []),
         ("checksum-free pointer", C.Struct("o" / C.Byte, "p" / C.Pointer(this.o, C.Byte), "q" / C.Pointer(-1, C.Byte), "t" / C.Tell), [b"\x02\x07\x08", b"\x00"], []),
+        # a Union builds its first member that is present or builds from None: also when that member has no name
+        ("union-anon-first", C.Struct("u" / C.Union(None, C.Const(b"\x01"), "a" / C.Byte, "b" / C.Int16ub), "t" / C.Byte), [b"\x01\x02\x03", b"\x02\x02\x03"], [dict(u=dict(a=5), t=1), dict(u=dict(), t=1)]),
+        ("union-anon-middle", C.Struct("u" / C.Union(0, "a" / C.Byte, C.Padding(1), "b" / C.Int16ub), "t" / C.Byte), [b"\x01\x02\x03"], [dict(u=dict(b=5), t=1), dict(u=dict(a=5), t=1)]),
+        ("union-pass-first", C.Union(None, C.Pass, "a" / C.Byte), [b"\x01"], [dict(a=5), dict()]),
         # data taken from elsewhere than the stream: a constant, and a context expression (this.d)
         ("restreamdata-bytes", C.Struct("r" / C.RestreamData(b"\x01\x02", C.Int16ub), "t" / C.Byte), [b"\x05", b""], [dict(r=None, t=5), dict(t=0)]),
         ("restreamdata-this", C.Struct("d" / C.Bytes(2), "r" / C.RestreamData(this.d, C.Struct("a" / C.Byte, "b" / C.Byte)), "t" / C.Byte), [b"\x01\x02\x05", b"\xff\x00\x00", b"\x01"],
